@@ -242,8 +242,10 @@ func classify(r *h.Rec, kind, nonceLen, tagLen, ptLen, aadLen int) {
 			r.Label("gcm-nonce=1..11")
 		case nonceLen <= 16:
 			r.Label("gcm-nonce=13..16")
-		default:
+		case nonceLen <= 64:
 			r.Label("gcm-nonce=17..64")
+		default:
+			r.Label("gcm-nonce=65..300")
 		}
 		r.Label("gcm-tag=%d", tagLen)
 		if tagLen < 16 && ptLen%16 != 0 && ptLen%16+tagLen < 16 {
@@ -597,7 +599,7 @@ func TestC04_GCMCounterWrap(t *testing.T) {
 	h.Sweep(t, h.P{Name: "gcm-ctr32-wrap", Journal: journalAll}, func(emit func(aeadCase)) {
 		i := 0
 		for j := 0; j <= maxJ; j++ {
-			for _, tail := range []int{0, 1, 16, 48} {
+			for _, tail := range []int{0, 1, 16, 48, 130} {
 				for _, pl := range []int{16*j + 1, 16*j + 16, 16*j + 17, 16*(j+1) + 15, 16*(j+4) + 3, 16*(j+8) + 5, 16*(j+17) + 1} {
 					kind := kGCM
 					if i%4 == 3 {
@@ -623,6 +625,10 @@ func TestC04_GCMCounterWrap(t *testing.T) {
 
 // ---------------------------------------------------------------- random (rapid)
 
+// maxLen is the largest drawn plaintext / AAD length: 4 KiB, 16 KiB in the
+// thorough tier.
+func maxLen() int { return h.Scale(4096, 16384) }
+
 func drawLayout(rt *rapid.T, c *aeadCase) {
 	c.SealLay = rapid.IntRange(0, 3).Draw(rt, "sealLay")
 	c.OpenLay = rapid.IntRange(0, 3).Draw(rt, "openLay")
@@ -637,10 +643,10 @@ func genGCMCase(rt *rapid.T) aeadCase {
 	if rapid.IntRange(0, 3).Draw(rt, "wrapped") == 0 {
 		c.Kind = kGCMWrapped
 	}
-	c.PtLen = gen.LenClass(4096, 16, 64, 128).Draw(rt, "pt")
+	c.PtLen = gen.LenClass(maxLen(), 16, 64, 128).Draw(rt, "pt")
 	switch rapid.IntRange(0, 9).Draw(rt, "aadKind") {
 	case 0, 1, 2:
-		c.AadLen = gen.LenClass(4096, 16, 64, 128).Draw(rt, "aad")
+		c.AadLen = gen.LenClass(maxLen(), 16, 64, 128).Draw(rt, "aad")
 	case 3:
 		c.AadLen = rapid.SampledFrom([]int{0, 13}).Draw(rt, "aadConst")
 	default:
@@ -649,7 +655,7 @@ func genGCMCase(rt *rapid.T) aeadCase {
 	switch rapid.IntRange(0, 9).Draw(rt, "family") {
 	case 0, 1, 2, 3, 4: // the 12-byte fast path
 	case 5, 6, 7:
-		c.NonceLen = rapid.IntRange(1, 64).Draw(rt, "nonceLen")
+		c.NonceLen = rapid.OneOf(rapid.IntRange(1, 64), rapid.IntRange(1, 64), rapid.IntRange(1, 64), rapid.IntRange(65, 300)).Draw(rt, "nonceLen")
 	default:
 		c.TagLen = rapid.IntRange(12, 16).Draw(rt, "tagLen")
 		if rapid.IntRange(0, 2).Draw(rt, "shortTail") == 0 {
@@ -677,14 +683,14 @@ func genCCMCase(rt *rapid.T) aeadCase {
 	}
 	c.NonceLen = rapid.SampledFrom([]int{12, 7, 8, 9, 10, 11, 12, 13}).Draw(rt, "nonceLen")
 	c.TagLen = rapid.SampledFrom([]int{16, 4, 6, 8, 10, 12, 14, 16}).Draw(rt, "tagLen")
-	c.PtLen = gen.LenClass(4096, 16, 64, 128).Draw(rt, "pt")
+	c.PtLen = gen.LenClass(maxLen(), 16, 64, 128).Draw(rt, "pt")
 	if c.NonceLen == 13 && rapid.IntRange(0, 19).Draw(rt, "maxMsg") == 0 {
 		// L = 2: the longest messages the length field can express
 		c.PtLen = rapid.SampledFrom([]int{65519, 65520, 65534, 65535}).Draw(rt, "ptMax")
 	}
 	switch rapid.IntRange(0, 19).Draw(rt, "aadKind") {
 	case 0, 1, 2, 3, 4:
-		c.AadLen = gen.LenClass(4096, 16, 14, 30).Draw(rt, "aad")
+		c.AadLen = gen.LenClass(maxLen(), 16, 14, 30).Draw(rt, "aad")
 	case 5, 6:
 		c.AadLen = rapid.SampledFrom([]int{0xfefe, 0xfeff, 0xff00, 0xff01, 0x10000, 0x10001}).Draw(rt, "aadBoundary")
 	case 7:
